@@ -133,6 +133,8 @@ def jobs(tier):
     for what in ('numbins', 'negative', 'time_limit', 'partition_difference', 'pd_noninteger'):
         J.append(job('cbldm', what=what)); J.append(job('cbldm', what=what, pres='list', n=2))
     J.append(job('cbldm', what='negative', n=4))
+    for what in ('numbins', 'negative', 'time_limit', 'partition_difference'):
+        J.append(job('cbldm', what=what, n=1)); J.append(job('cbldm', what=what, n=1, pres='dict'))
     J.append(job('numitems'))
     if tier == 'thorough':
         for alg in ('ff', 'ffd', 'bf', 'bfd'):
